@@ -199,9 +199,17 @@ impl Check for C10 {
                 3 => Op::SetOffset {
                     o: gen_offset(d, &text),
                 },
-                4 => Op::WithOffset {
-                    o: gen_offset(d, &text),
-                },
+                4 => {
+                    if d.bool() {
+                        Op::WithOffset {
+                            o: gen_offset(d, &text),
+                        }
+                    } else {
+                        Op::RebaseWithOffset {
+                            o: gen_offset(d, &text),
+                        }
+                    }
+                }
                 _ => {
                     let n = 1 + d.below(4);
                     Op::PeekAdvance { n, k: d.below(n) }
@@ -224,7 +232,7 @@ impl Check for C10 {
             match op {
                 Op::Next | Op::PeekN { .. } => {}
                 Op::SetMode { m } if *m < nm => {}
-                Op::SetOffset { o } | Op::WithOffset { o }
+                Op::SetOffset { o } | Op::WithOffset { o } | Op::RebaseWithOffset { o }
                     if *o > input.len() || input.is_char_boundary(*o) => {}
                 Op::PeekAdvance { n, k } if k < n => {}
                 _ => return Ok(discard("discard_op")),
@@ -288,12 +296,16 @@ impl Check for C10 {
                         twin.set_mode(*m);
                         mode = *m;
                     }
-                    Op::SetOffset { o } | Op::WithOffset { o } => {
+                    Op::SetOffset { o } | Op::WithOffset { o } | Op::RebaseWithOffset { o } => {
                         let fresh = matches!(op, Op::WithOffset { .. });
                         if fresh {
                             it = scanner.find_iter(input).with_offset(*o);
                             mode = 0;
                             st.count("with_offset");
+                        } else if matches!(op, Op::RebaseWithOffset { .. }) {
+                            // the consuming with_offset on the iterator in use keeps the mode
+                            it = it.with_offset(*o);
+                            st.count("with_offset_on_used_iterator");
                         } else {
                             it.set_offset(*o);
                             st.count("set_offset");
@@ -417,9 +429,14 @@ impl Check for C11 {
                 0 => Op::Next,
                 1 => Op::PeekN { n: crate::gen::gen_peek_n_opt(d, 6, true) },
                 2 => Op::SetMode { m: d.below(nm) },
-                3 => Op::SetOffset {
-                    o: text.offs[d.below(text.offs.len())],
-                },
+                3 => {
+                    let o = text.offs[d.below(text.offs.len())];
+                    if d.chance(64) {
+                        Op::RebaseWithOffset { o }
+                    } else {
+                        Op::SetOffset { o }
+                    }
+                }
                 _ => Op::Position {
                     o: text.offs[d.below(text.offs.len())],
                 },
@@ -441,7 +458,8 @@ impl Check for C11 {
             match op {
                 Op::Next | Op::PeekN { .. } => {}
                 Op::SetMode { m } if *m < nm => {}
-                Op::SetOffset { o } | Op::Position { o } if *o <= input.len() && input.is_char_boundary(*o) => {}
+                Op::SetOffset { o } | Op::Position { o } | Op::RebaseWithOffset { o }
+                    if *o <= input.len() && input.is_char_boundary(*o) => {}
                 _ => return Ok(discard("discard_op")),
             }
         }
@@ -609,6 +627,13 @@ impl Check for C11 {
                     Op::SetOffset { o } => {
                         it.set_offset(*o);
                         twin.set_offset(*o);
+                        pos = text.char_index(*o).unwrap();
+                        pending.clear();
+                        ended = false;
+                    }
+                    Op::RebaseWithOffset { o } => {
+                        it = it.with_offset(*o);
+                        twin = twin.with_offset(*o);
                         pos = text.char_index(*o).unwrap();
                         pending.clear();
                         ended = false;
